@@ -111,6 +111,29 @@ def run(ctx):
                         bad.append("header_buffer::has_flags(flags %#06x, %s) = %r" % (w, fn, pf))
             if len(bad) > 12:
                 break
+        # writer, every RCODE / OPCODE variant (codes above 15 included: their upper bits live in the OPT TTL, C09): the
+        # rcode may only occupy bits 3..0 and the opcode bits 14..11 of the flags word
+        all_rc = [(v["name"], int(v["discr"])) for v in radt["variants"]]
+        all_op = [(v["name"], int(v["discr"])) for v in oadt["variants"]]
+        for rn, rd_ in all_rc:
+            for on, od in all_op:
+                for z in (0, flag_mask):
+                    hdr = {"id": ID, "opcode": EnumVal("OPCODE", on), "response_code": EnumVal("RCODE", rn), "z_flags": z,
+                           "opt": EnumVal("Option", "None")}
+                    m4 = Header12({}, flag_mask)
+                    wv = Evaluator(prog, m4.hooks()).call(B["get_flags"], [hdr])
+                    report.count()
+                    if not isinstance(wv, int):
+                        bad.append("Header::get_flags(%s, %s) is not evaluable (%r)" % (on, rn, wv))
+                        continue
+                    if (wv & ~0x000F & ~0x7800) != z:
+                        bad.append("Header::get_flags(opcode %s, rcode %s=%d, flags %#06x) = %#06x: the code spills into flag bits %#06x "
+                                   "(only bits 3..0 carry the rcode, 14..11 the opcode)" % (on, rn, rd_, z, wv, (wv & ~0x000F & ~0x7800) ^ z))
+                    elif rn != "Reserved" and (wv & 0xF) != (rd_ & 0xF):
+                        bad.append("Header::get_flags writes rcode %s=%d as nibble %d" % (rn, rd_, wv & 0xF))
+                    elif on != "Reserved" and ((wv >> 11) & 0xF) != (od & 0xF):
+                        bad.append("Header::get_flags writes opcode %s=%d as %d" % (on, od, (wv >> 11) & 0xF))
+        report.nontriv("writer table all variants")
         report.count(65536 * 3)
         report.nontriv("parse table")
         report.nontriv("peek tables")
